@@ -107,8 +107,19 @@ fn bprime_single_field_corruptions_never_panic() {
     let mut bad: Vec<String> = Vec::new();
     for with_note in [true, false] {
         let base = build_elf(with_note);
+        // besides the generic extremes: every value that ANOTHER field of the image holds, and its neighbours
+        // (offset == size, index == count, address == end ... are the boundaries the readers compare against)
+        let mut values: Vec<u64> = values.to_vec();
         for &(off, width) in &base.fields {
-            for v in values {
+            let mut raw = [0u8; 8];
+            raw[..width].copy_from_slice(&base.b[off..off + width]);
+            let v = u64::from_le_bytes(raw);
+            values.extend([v.wrapping_sub(1), v, v.wrapping_add(1)]);
+        }
+        values.sort_unstable();
+        values.dedup();
+        for &(off, width) in &base.fields {
+            for &v in &values {
                 let mut b = base.b.clone();
                 b[off..off + width].copy_from_slice(&v.to_le_bytes()[..width]);
                 let r1 = std::panic::catch_unwind(|| BuildId::read_from_module(ProcessMemory::Slice(&b)).map(|x| x.0).map_err(|_| ()));
